@@ -127,7 +127,8 @@ func (w *world) afterBeginBlock(pre *vestSnap) {
 			}
 			w.rec.Violate("C20", "release", key, "block %d: pool released %s %s, schedule says %s (pool before %s, enabled=%v, reward %s)", w.c.CurHdr.Height, out, d, exp, bi(pre.pool, d), w.vest.enabled, w.vest.reward)
 		}
-		if in.Cmp(exp) != 0 {
+		if in.Cmp(exp) != 0 && !w.evidenceBlock {
+			// (a block that reports validator misbehaviour also sends the slashed stake to the fee collector)
 			w.rec.Violate("C20", "fee_collector", "wrong_amount", "block %d: fee collector/distribution received %s %s, schedule says %s", w.c.CurHdr.Height, in, d, exp)
 		}
 		if bi(post.pool, d).Sign() < 0 {
